@@ -224,6 +224,18 @@ pub fn operand_alphabet() -> (Vec<D>, Vec<D>) {
         [0., 0., 0., 0., 23., 59., 59., 999., 999., 1000.],
         [0., 0., 0., 1., 0., 0., 86400., 0., 0., 0.],
         [0., 0., 0., 0., 0., 1., 0., 60000., 0., 0.],
+        // within a second of the limit 2^53 s: balanced to a sub-second unit, the exact total is in range
+        // but the double nearest to the large field is at the limit (must be a RangeError)
+        [0., 0., 0., 0., 0., 0., 9007199254740991., 0., 0., 999_999_999.],
+        [0., 0., 0., 0., 0., 0., 9007199254740991., 999., 0., 0.],
+        [0., 0., 0., 0., 0., 0., 9007199254740991., 0., 0., 0.],
+        [0., 0., 0., 0., 0., 0., 9007199254740990., 0., 0., 1_999_999_999.],
+        // halves of the limit in sub-second fields: sums inside the window (and exactly at the limit)
+        [0., 0., 0., 0., 0., 0., 0., 4503599627370496000., 0., 0.],
+        [0., 0., 0., 0., 0., 0., 0., 4503599627370494976., 1_023_000., 999_999.],
+        [0., 0., 0., 0., 0., 0., 0., 0., 4503599627370496000000., 0.],
+        [0., 0., 0., 0., 0., 0., 0., 0., 4503599627370494951424., 1_048_575_999.],
+        [0., 0., 0., 0., 0., 0., 0., 0., 0., 4503599627370496000000000.],
     ] {
         fs.push(f);
     }
